@@ -101,6 +101,24 @@ def two_node_witness(clause, lines, kind=""):
 CLASSIFIERS = {"c12_equal_timestamps": equal_stamp_witness, "c12_replay_setpos_file_name": replay_setpos_witness}
 
 
+# Harmless rewrites of the anchored code on which the whole check was run (mutated object files in scratch, full flow):
+# each exits 0 without a VIOLATION line.  The patches are kept as documentation in corpus/C12/negative_controls/*.diff.
+NEGATIVE_CONTROLS = [
+    "n1_replaylog_refactored: ReplayLog with renamed locals (peer_ts, logpos_ts, last_sync), reordered declarations, the secobj visibility test extracted into a lambda",
+    "n2_message_texts: other wording of every log/warning text in PersistMessage/OpenLogFile/RotateLogFile/ReplayLog/ApiTimerHandler and in MessageHandler",
+    "n3_free_choices: two extra bookkeeping fields in the persisted record (different bytes, sizes, key set), rotation threshold 20000 instead of 50000, the timer "
+    "visits the endpoints in reverse order, the in-replay SetLogPosition is queued every 25 s of log instead of every 10 s",
+    "n4_guard_spellings: `!tooOld && !(ts <= pos)` in the clean-up, `!(timestamp > peer_ts)` in ReplayLog, early return in RotateLogFile, `!(ts != 0)`, "
+    "if/else instead of early return in MessageHandler, std::max in SetLogPositionHandler",
+    "n5_renamed_helper_comments_moves: static helper LogGlobHandler renamed (header and source), RotateLogFile's definition moved in front of OpenLogFile, "
+    "added comments and braces around the members the harness reaches by explicit instantiation (m_LogFile, m_LogMessageCount)",
+]
+# What keeps them silent (DESIGN.md §0.3): the record's bytes are an oracle input (the model is given the frame PersistMessage wrote and only checks
+# the netstring framing); files are compared as DECODED record sequences read by the production reader (`dump`), `ls` compares names only; WHEN
+# PersistMessage rotates follows the implementation (the threshold is no part of the property); queues are compared as sequences of replayed events,
+# the interleaved log::SetLogPosition messages are judged by the clause confirmation_not_beyond_received alone (replay and timer).
+
+
 class C12(StdCheck):
     prop = "C12"
     required_theorems = ["replay_exact_partial", "replay_exact_counterexample", "replay_exact", "confirmed_not_replayed",
@@ -122,7 +140,7 @@ class C12(StdCheck):
                   "connects, replays, rotations, clean-ups, acknowledgements, incoming messages, crash-restarts) under a strictly "
                   "advancing clock the model node's observed trace satisfies the executable specification. The model is tied to "
                   "the code by running the real ApiListener (RelayMessage, ReplayLog, RotateLogFile, the timer through the pump, "
-                  "MessageHandler) on seeded operation sequences with restarts as new processes, byte-exact file comparison, and "
+                  "MessageHandler) on seeded operation sequences with restarts as new processes, files compared as decoded record sequences, and "
                   "every cut offset of multi-file logs; the specification predicate is evaluated on the implementation's trace")
     level_note = ("Trusted: Lean kernel (+ propext, Classical.choice, Quot.sound), harness/driver, C20's netstring model. The JSON text of a "
                   "record is an oracle input (the bytes PersistMessage wrote are handed to the model, which checks the framing and "
